@@ -111,6 +111,10 @@ func main() {
 				n++
 			}
 		}
+		// floors are reported separately: a control counts as caught only by a rule that names the construct
+		for _, o := range a.floorFailures() {
+			fmt.Printf("CONTROL-FLOOR construct=%s %s\n", o.Construct, firstLine(o.Detail))
+		}
 		fmt.Printf("CONTROL-SUMMARY failing=%d total=%d\n", n, len(a.obs))
 		return
 	}
